@@ -7,4 +7,21 @@ def knownNonFull : List (String × String × String) := [
   ("mjml.createMJMLComponent", "raw", "lang")
 ]
 
+/-- the resolvers: the only functions that may read a component's own attribute map directly (each goes on to the mj-class
+    definitions and the document's mj-attributes; `C09_full_is_winner` / `C09_written_reads` are about their bodies) -/
+def resolverBodies : List String := [
+  "mjml/components.(*BaseComponent).GetAttribute",
+  "mjml/components.(*BaseComponent).GetAttributeFast",
+  "mjml/components.(*BaseComponent).GetAttributeWithDefault",
+  "mjml/components.(*BaseComponent).GetWrittenAttribute"
+]
+
+/-- the recorded writes to a component's own attribute map: the width pre-passes hand a width-less column its share
+    (`width`, and `mobile-width` inside a group) before it is rendered — component state of this compilation, not the AST -/
+def ownMapWrites : List (String × String) := [
+  ("mjml.(*MJMLComponent).prepareBodySiblings", "width"),
+  ("mjml/components.(*MJGroupComponent).Render", "mobile-width"),
+  ("mjml/components.(*MJGroupComponent).Render", "width")
+]
+
 end Gomjml.Expect.AttrSites
